@@ -6,6 +6,7 @@ mod engine;
 mod props;
 mod rs;
 mod tools;
+mod worker;
 
 use engine::Tier;
 
